@@ -1,4 +1,4 @@
-"""C26 Topology graphs: distances from calc_distance_to_bus are shortest-path lengths (the distance clause)."""
+"""C26 Topology graphs: edge set under in-service flags / switches / options, components partition, distances are shortest paths."""
 import copy
 import itertools
 
@@ -83,6 +83,137 @@ def make_fn(name, src):
     return fn
 
 
+# ---------------------------------------------------------------- edge set under in-service flags, switches and options
+FLAGS = ["sw_line0_at_b1_closed", "sw_trafo0_closed", "sw_trafo3w0_at_mv_closed", "sw_bus3_bus6_closed", "sw_line1_at_b3_closed",
+         "line0_in_service", "trafo0_in_service", "trafo3w0_in_service", "bus3_in_service", "impedance0_in_service", "sw_trafo3w0_at_hv_closed"]
+
+
+def _flag_net():
+    if "flags" not in _cache:
+        net = pp.create_empty_network()
+        b = [pp.create_bus(net, v) for v in (110., 20., 20., 20., 10., 10., 20.)]
+        pp.create_ext_grid(net, b[0])
+        pp.create_transformer_from_parameters(net, b[0], b[1], 40, 110, 20, 0.3, 12, 20, 0.05)
+        pp.create_transformer3w_from_parameters(net, b[0], b[2], b[4], 110, 20, 10, 40, 20, 20, 10, 10, 10, 0.3, 0.3, 0.3, 20, 0.05)
+        pp.create_line_from_parameters(net, b[1], b[2], 1.5, 0.1, 0.1, 10, 1.)
+        pp.create_line_from_parameters(net, b[2], b[3], 2.5, 0.1, 0.1, 10, 1.)
+        pp.create_line_from_parameters(net, b[4], b[5], 0.7, 0.1, 0.1, 10, 1.)
+        pp.create_impedance(net, b[1], b[3], 0.01, 0.02, 10.)
+        pp.create_switch(net, b[1], 0, "l")
+        pp.create_switch(net, b[1], 0, "t")
+        pp.create_switch(net, b[2], 0, "t3")
+        pp.create_switch(net, b[3], b[6], "b")
+        pp.create_switch(net, b[3], 1, "l")
+        pp.create_switch(net, b[0], 0, "t3")
+        _cache["flags"] = net
+    return _cache["flags"]
+
+
+def _not(a):
+    return (not a) if isinstance(a, (bool, np.bool_)) else ~a
+
+
+def make_flags(nflags, respect_switches=True, options=None):
+    """every flag is a symbolic boolean (threshold of a symbolic real); the harness writes the decided value into the tables (one path per
+    combination the solver finds feasible), the real create_nxgraph / connected_components / calc_distance_to_bus run on it, and the claim per
+    potential edge is 'present <=> reference formula over the symbolic flags', decided by the solver under the path condition"""
+    options = dict(options or {})
+
+    def fn(ctx):
+        cg = ctx.load("pandapower.topology.create_graph")
+        gs = ctx.load("pandapower.topology.graph_searches")
+        net = copy.deepcopy(_flag_net())
+        F = {}
+        for k, nm in enumerate(FLAGS):
+            F[nm] = (ctx.var(nm, 0., 1.) >= 0.5) if k < nflags else True
+        D = {nm: bool(v) for nm, v in F.items()}          # forks
+        net.switch["closed"] = [D["sw_line0_at_b1_closed"], D["sw_trafo0_closed"], D["sw_trafo3w0_at_mv_closed"], D["sw_bus3_bus6_closed"],
+                                D["sw_line1_at_b3_closed"], D["sw_trafo3w0_at_hv_closed"]]
+        net.line.loc[0, "in_service"] = D["line0_in_service"]
+        net.trafo.loc[0, "in_service"] = D["trafo0_in_service"]
+        net.trafo3w.loc[0, "in_service"] = D["trafo3w0_in_service"]
+        net.bus.loc[3, "in_service"] = D["bus3_in_service"]
+        net.impedance.loc[0, "in_service"] = D["impedance0_in_service"]
+        rs = respect_switches
+        oos = options.get("include_out_of_service", False)
+        nogo = set(options.get("nogobuses") or [])
+        notrav = set(options.get("notravbuses") or [])
+        g = cg.create_nxgraph(net, respect_switches=rs, **options)
+        closed = lambda nm: F[nm] if rs else True
+        ins = lambda nm: True if oos else F[nm]
+        bus_ok = lambda bno: (bno not in nogo) & ((True if oos else F["bus3_in_service"]) if bno == 3 else True)
+        inc = lambda key, default=True: options.get(key, default)
+
+        def included(key, idx):
+            v = options.get(key, True)
+            return bool(v) if isinstance(v, bool) else idx in list(v)
+        t3 = ins("trafo3w0_in_service") if included("include_trafo3ws", 0) else False
+        ref = {
+            (1, 2, ("line", 0)): (ins("line0_in_service") & closed("sw_line0_at_b1_closed")) if included("include_lines", 0) else False,
+            (2, 3, ("line", 1)): closed("sw_line1_at_b3_closed") if included("include_lines", 1) else False,
+            (4, 5, ("line", 2)): True if included("include_lines", 2) else False,
+            (0, 1, ("trafo", 0)): (ins("trafo0_in_service") & closed("sw_trafo0_closed")) if included("include_trafos", 0) else False,
+            (0, 2, ("trafo3w", 0)): t3 & closed("sw_trafo3w0_at_mv_closed") & closed("sw_trafo3w0_at_hv_closed"),
+            (0, 4, ("trafo3w", 0)): t3 & closed("sw_trafo3w0_at_hv_closed"),
+            (2, 4, ("trafo3w", 0)): t3 & closed("sw_trafo3w0_at_mv_closed"),
+            (1, 3, ("impedance", 0)): ins("impedance0_in_service") if included("include_impedances", 0) else False,
+            (3, 6, ("switch", 3)): closed("sw_bus3_bus6_closed") if options.get("include_switches", True) else False,
+        }
+        # notravbuses can be reached but not passed: the graph keeps the adjacency into such a bus and drops the adjacency out of it
+        dref = {}
+        for (u, v, key), r in list(ref.items()):
+            r = r & bus_ok(u) & bus_ok(v)
+            ref[(u, v, key)] = r
+            dref[(u, v, key)] = False if u in notrav else r
+            dref[(v, u, key)] = False if v in notrav else r
+        got = set()
+        for u in g.adj:
+            for v in g.adj[u]:
+                for key in g.adj[u][v]:
+                    got.add((u, v, key))
+        for e, r in dref.items():
+            present = e in got
+            ctx.true(f"edge_iff_energizing_connection/{e[2][0]}{e[2][1]}_{e[0]}_to_{e[1]}", r if present else _not(r))
+        ctx.true("no_edge_besides_the_branches_and_bus_switches", got <= set(dref))
+        for bno in range(7):
+            ctx.true(f"node_iff_bus_in_service_and_not_nogo/{bno}", bus_ok(bno) if bno in g else _not(bus_ok(bno)))
+        # components / distances on this path: reference from the expected edge set, decided for this combination of flags
+        exp_edges = [e for e, r in dref.items() if (r if isinstance(r, (bool, np.bool_)) else bool(r))]
+        nodes = [bno for bno in range(7) if (lambda r: r if isinstance(r, (bool, np.bool_)) else bool(r))(bus_ok(bno))]
+        parent = {n_: n_ for n_ in nodes}
+
+        def find(a):
+            while parent[a] != a:
+                a = parent[a]
+            return a
+        for u, v, _ in exp_edges:
+            parent[find(u)] = find(v)
+        if not notrav:
+            comps = [set(c) for c in gs.connected_components(g)]
+            seen = [n_ for c in comps for n_ in c]
+            ctx.true("components_cover_every_node_exactly_once", sorted(seen) == sorted(nodes))
+            same_ok = all((find(a) == find(b_)) == any(a in c and b_ in c for c in comps) for a in nodes for b_ in nodes)
+            ctx.true("same_component_iff_connected_by_energizing_connections", same_ok)
+        wt = {("line", 0): 1.5, ("line", 1): 2.5, ("line", 2): 0.7}
+        INF = float("inf")
+        dist = {a: {b_: (0.0 if a == b_ else INF) for b_ in nodes} for a in nodes}
+        for u, v, key in exp_edges:
+            w = wt.get(key, 0.0)
+            dist[u][v] = min(dist[u][v], w)
+        for k_ in nodes:
+            for a in nodes:
+                for b_ in nodes:
+                    if dist[a][k_] + dist[k_][b_] < dist[a][b_]:
+                        dist[a][b_] = dist[a][k_] + dist[k_][b_]
+        if 0 in nodes:
+            d = gs.calc_distance_to_bus(net, 0, respect_switches=rs, nogobuses=options.get("nogobuses"), notravbuses=options.get("notravbuses")) \
+                if set(options) <= {"nogobuses", "notravbuses"} else gs.calc_distance_to_bus(net, 0, g=g)
+            reach = sorted(b_ for b_ in nodes if dist[0][b_] < INF)
+            ctx.true("distances_reported_for_exactly_the_connected_buses", sorted(int(i) for i in d.index) == reach)
+            ctx.true("distances_are_shortest_path_lengths", all(abs(float(d[b_]) - dist[0][b_]) < 1e-9 for b_ in reach if b_ in d.index))
+    return fn
+
+
 def g_weights(g, f, t):
     data = g.get_edge_data(f, t)
     return [d["weight"] for d in data.values()]
@@ -90,6 +221,16 @@ def g_weights(g, f, t):
 
 def instances(tier):
     out = [Inst(f"{n}_from0", make_fn(n, 0), nvars=12, samples=3, max_paths=5000, meta=dict(topology=n, source=0)) for n in TOPOS]
+    nf = 8 if tier == "quick" else len(FLAGS)
+    out += [Inst("edges_respect_switches", make_flags(nf, True), nvars=14, samples=6, max_paths=5000, meta=dict(part="edges", respect_switches=True, flags=nf)),
+            Inst("edges_ignore_switches", make_flags(min(nf, 9), False), nvars=14, samples=6, max_paths=5000, meta=dict(part="edges", respect_switches=False, flags=min(nf, 9)))]
+    opts = {"nogobus2": dict(nogobuses=[2]), "notravbus2": dict(notravbuses=[2]), "no_trafos": dict(include_trafos=False),
+            "only_line1_no_trafo3w": dict(include_lines=[1], include_trafo3ws=False), "out_of_service_included": dict(include_out_of_service=True),
+            "no_bus_switches_no_impedances": dict(include_switches=False, include_impedances=False)}
+    for nm, o in opts.items():
+        if tier == "thorough" or nm in ("nogobus2", "out_of_service_included"):
+            k = 6 if tier == "quick" else 9
+            out.append(Inst(f"edges_option_{nm}", make_flags(k, True, o), nvars=14, samples=4, max_paths=5000, meta=dict(part="edges", options=str(o), flags=k)))
     if tier == "thorough":
         out += [Inst(f"double_mesh_from{s}", make_fn("double_mesh", s), nvars=12, samples=3, max_paths=5000, meta=dict(topology="double_mesh", source=s)) for s in (1, 2, 3)]
     return out
